@@ -18,6 +18,7 @@ const (
 	stLockBlocked        // blocked on a real lock of the system under test
 	stSutSleep           // inside a time.Sleep made by the system under test
 	stTimer              // harness sleep: waits for a scheduler-owned virtual timer
+	stWaitKey            // parked before a lock operation until the modelled lock is free
 	stDone
 )
 
@@ -26,6 +27,8 @@ const (
 	rDone
 	rSleep
 	rSys
+	rLockReq
+	rUnlock
 )
 
 // SysReq is a simulated system call handed to the scheduler goroutine, which
@@ -49,6 +52,21 @@ type report struct {
 	point string
 	d     int64
 	sys   SysReq
+	key   string
+	mode  int // 0 exclusive, 1 shared
+}
+
+// keyHold is the scheduler's model of one lock of the system under test
+// (sync.Mutex, sync.RWMutex, sync.Once), identified by expression text and
+// the address it is reached from. The instrumented copy of the library
+// announces lock operations (Task.LockReq / UnlockNote); a task whose lock is
+// held by a parked task stays parked in the simulator instead of blocking for
+// real, so no goroutine-status probe is needed and hand-over order does not
+// depend on the Go runtime. Locks the model does not know block for real and
+// are handled by the probing fall-back.
+type keyHold struct {
+	writer  *Task
+	readers map[*Task]int
 }
 
 // Task is a caller thread of the system under test: a real goroutine that is
@@ -63,6 +81,9 @@ type Task struct {
 	state  int
 	goid   uint64
 	wake   int64 // virtual ns since run start, for stTimer
+	wkey   string
+	wmode  int
+	wpend  bool // an exclusive request that has been issued and now excludes new shared holders (RWMutex writer preference)
 	sys    *SysReq
 	point  string
 	Panic  string // set when fn panicked
@@ -110,6 +131,8 @@ type Sched struct {
 	Strategy  int
 	StickyMod int
 	hazard    bool
+	keys      map[string]*keyHold
+	KeyWaits  int // times a task had to wait for a modelled lock
 }
 
 // Progress is bumped on every scheduler step; an external real-time watchdog
@@ -176,6 +199,32 @@ func (t *Task) Yield(point string) {
 func (t *Task) Sleep(d time.Duration) {
 	hideSync()
 	t.report <- report{kind: rSleep, d: int64(d)}
+	<-t.resume
+	unhideSync()
+}
+
+// LockReq announces that the task is about to acquire a lock of the system
+// under test. It is a scheduling point; the task is released once the
+// modelled lock is free (and is then its holder).
+func (t *Task) LockReq(key string, shared bool) {
+	m := 0
+	if shared {
+		m = 1
+	}
+	hideSync()
+	t.report <- report{kind: rLockReq, key: key, mode: m, point: "lock"}
+	<-t.resume
+	unhideSync()
+}
+
+// UnlockNote announces that the task has released a lock (scheduling point).
+func (t *Task) UnlockNote(key string, shared bool) {
+	m := 0
+	if shared {
+		m = 1
+	}
+	hideSync()
+	t.report <- report{kind: rUnlock, key: key, mode: m, point: "unlock"}
 	<-t.resume
 	unhideSync()
 }
@@ -269,7 +318,87 @@ func (s *Sched) apply(t *Task, r report) {
 		q := r.sys
 		t.sys = &q
 		t.point = "sys"
+	case rLockReq:
+		t.state = stWaitKey
+		t.wkey, t.wmode, t.wpend = r.key, r.mode, false
+		t.point = "lock"
+		if !s.keyFree(t) {
+			s.KeyWaits++
+		}
+	case rUnlock:
+		t.state = stParked
+		t.point = "unlock"
+		if k := s.keys[r.key]; k != nil {
+			if r.mode == 1 {
+				if k.readers[t] > 0 {
+					k.readers[t]--
+					if k.readers[t] == 0 {
+						delete(k.readers, t)
+					}
+				}
+			} else if k.writer == t {
+				k.writer = nil
+			}
+		}
 	}
+}
+
+// keyFree reports whether task t could take the modelled lock now. A task
+// that already holds it is let through: the real lock operation then decides
+// (a real self-deadlock is seen by the probing fall-back).
+func (s *Sched) keyFree(t *Task) bool {
+	k := s.keys[t.wkey]
+	if k == nil {
+		return true
+	}
+	if k.writer != nil && k.writer != t {
+		return false
+	}
+	if t.wmode == 0 {
+		for r := range k.readers {
+			if r != t {
+				return false
+			}
+		}
+		return true
+	}
+	// shared request: a pending exclusive request of another task excludes
+	// new shared holders, nested ones included (sync.RWMutex)
+	for _, u := range s.Tasks {
+		if u != t && u.state == stWaitKey && u.wpend && u.wmode == 0 && u.wkey == t.wkey {
+			return false
+		}
+	}
+	return true
+}
+
+// canPend reports whether a waiting exclusive request may be "issued" now:
+// only meaningful while the lock is held shared (then it starts to exclude
+// new shared holders; whether that happens before or after another task's
+// shared request is a scheduling decision like any other).
+func (s *Sched) canPend(t *Task) bool {
+	if t.wmode != 0 || t.wpend {
+		return false
+	}
+	k := s.keys[t.wkey]
+	return k != nil && len(k.readers) > 0
+}
+
+func (s *Sched) grant(t *Task) {
+	if s.keys == nil {
+		s.keys = map[string]*keyHold{}
+	}
+	k := s.keys[t.wkey]
+	if k == nil {
+		k = &keyHold{readers: map[*Task]int{}}
+		s.keys[t.wkey] = k
+	}
+	if t.wmode == 1 {
+		k.readers[t]++
+	} else if k.writer == nil {
+		k.writer = t
+	}
+	t.wkey = ""
 }
 
 // settle waits (spinning, never blocking durably) until the released task has
@@ -431,7 +560,8 @@ func (s *Sched) Run() Verdict {
 		s.resettle()
 		now := s.now()
 		var run []*Task
-		unfinished, locked, sleepers, timers := 0, 0, 0, 0
+		unfinished, locked, sleepers, timers, waiting := 0, 0, 0, 0, 0
+		_ = waiting
 		var nextWake int64 = -1
 		for _, t := range s.Tasks {
 			switch t.state {
@@ -441,6 +571,13 @@ func (s *Sched) Run() Verdict {
 				}
 			}
 			switch t.state {
+			case stWaitKey:
+				unfinished++
+				if s.keyFree(t) || s.canPend(t) {
+					run = append(run, t)
+				} else {
+					waiting++
+				}
 			case stParked:
 				run = append(run, t)
 				unfinished++
@@ -517,6 +654,19 @@ func (s *Sched) Run() Verdict {
 					resp = s.SysHandler(t.ID, req)
 				}
 			}
+			if t.state == stWaitKey && !s.keyFree(t) {
+				// the exclusive request is issued and stays blocked
+				t.wpend = true
+				s.mixSched(t.ID, "pend")
+				if s.AfterStep != nil {
+					s.AfterStep()
+				}
+				continue
+			}
+			if t.state == stWaitKey {
+				s.grant(t)
+				t.wpend = false
+			}
 			t.state = stRunning
 			hideSync()
 			t.resume <- resp
@@ -578,6 +728,9 @@ func (s *Sched) Describe() string {
 	var b strings.Builder
 	for _, t := range s.Tasks {
 		fmt.Fprintf(&b, "task %d %s state=%d point=%s; ", t.ID, t.Name, t.state, t.point)
+		if t.state == stWaitKey {
+			fmt.Fprintf(&b, "(waits for lock %s) ", t.wkey)
+		}
 	}
 	return b.String()
 }
